@@ -51,6 +51,7 @@ class StreamableHTTPTransport(Transport):
         # Request handling
         self._outgoing_task: Optional[asyncio.Task] = None
         self._request_semaphore = asyncio.Semaphore(self.max_concurrent_requests)
+        self._routed_messages = 0  # messages handed on by _route_response
 
         # Memory streams for chuk_mcp message API
         self._incoming_send: Optional[MemoryObjectSendStream] = None
@@ -128,7 +129,28 @@ class StreamableHTTPTransport(Transport):
         """Send a message via HTTP POST with streamable response handling."""
         # Use semaphore to limit concurrent requests
         async with self._request_semaphore:
+            routed_before = self._routed_messages
             await self._send_message_internal(message)
+
+            # Whatever the server answered, a request must end with a terminal
+            # message: if the answer carried no JSON-RPC message at all (empty
+            # SSE stream, JSON scalar, unparseable 202 body, ...) synthesise one
+            message_id = (
+                message.get("id")
+                if isinstance(message, dict)
+                else getattr(message, "id", None)
+            )
+            if message_id is not None and self._routed_messages == routed_before:
+                await self._route_response(
+                    {
+                        "jsonrpc": "2.0",
+                        "id": message_id,
+                        "error": {
+                            "code": -32603,
+                            "message": "No JSON-RPC message in HTTP response",
+                        },
+                    }
+                )
 
     async def _send_message_internal(self, message) -> None:
         """Internal message sending with proper SSE handling."""
@@ -467,12 +489,14 @@ class StreamableHTTPTransport(Transport):
                     future = self._pending_requests.pop(message_id)
                     if not future.done():
                         future.set_result(response_data)
+                        self._routed_messages += 1
                         logger.debug(f"Completed pending request {message_id}")
                         return
 
             # Otherwise route to incoming stream
             if self._incoming_send:
                 await self._incoming_send.send(message)
+                self._routed_messages += 1
                 logger.debug(
                     f"Routed message to incoming stream: {message.method or 'response'}"
                 )
